@@ -65,6 +65,7 @@ def check(run):
         run.coverage["enums_with_spec_reply_set"] = sum(1 for v in spec_sets.values() if v is not None)
         # oracle on the implementation alone
         dec_cases, dec_expect = [], []
+        ok_example = {}            # (enum, control field) -> a case the enum's parser accepted
         k = 0
         for c in flat:
             f = c.split("\t")
@@ -100,7 +101,20 @@ def check(run):
                             dec_expect.append((e, idx, i))
                         if i.startswith("Ok "):
                             run.nontrivial.add(i[:100])
+                            ok_example.setdefault((f[1], cf), (e, i))
                 k += 1
+        # per COMMAND (not per enum): the reply parser a command is bound to (`type Output` of its `impl Sequence`) must not accept a
+        # control field outside THAT command's specified reply set — an enum that is right in itself can be bound to the wrong command
+        x = spec.exchanges()
+        for s in L["sequences"]:
+            short = s["name"].split("::")[-1]
+            if short not in x or short == "WriteFile":
+                continue
+            want = {cf for cf, _ in x[short]["replies"]}
+            for (en, cf), (e, i) in sorted(ok_example.items()):
+                if en == s["output"] and cf not in want:
+                    run.violation(kind="input", case=e, expected="Err (control field %02x %02x is outside the specified reply set of the command %s)" % (cf + (short,)),
+                                  observed=i[:200], how_found="oracle", detail="%s is bound to the reply parser %s" % (s["name"], en))
         # content = exactly what the variant's packet type decodes on its own
         outs = vlib.run_sharded(codec, dec_cases, run.workdir, "c15dec")
         for c, (e, idx, i), o in zip(dec_cases, dec_expect, outs):
